@@ -62,6 +62,12 @@ Inv_C16_Edge ==
           /\ \A i \in DOMAIN pre : <<pre[i][1], pre[i][2]>> # <<last.a, last.b>> => ue[i] = pre[i]
           /\ Len(ue) = Len(pre) + (IF <<last.a, last.b>> \in Pairs(pre) THEN 0 ELSE 1))
 
+(* the incremental descendant map used by the trace monitor agrees with the definition *)
+Inv_DescMap ==
+  LET F[k \in 0..Len(ue)] == IF k = 0 THEN [x \in 1..N |-> {}]
+                             ELSE DescAdd(N, F[k-1], ue[k][1], ue[k][2])
+  IN F[Len(ue)] = DescOf(N, ue)
+
 (* batch forms: the accepted prefix stays, everything before the call stays *)
 Inv_C16_Batch ==
   last.op = "edges" =>
